@@ -244,9 +244,17 @@ func c19Body(c *c19Case, o *c19Obs) func() {
 		}
 		done := false
 		vs.StartClock(func() bool { return done })
+		sendCtx := context.Background()
+		if strings.Contains(c.Config, "cancelled-caller") {
+			// the caller has already given up (its context is done) when it hands the data over: whatever the queue does with
+			// it, the items are the exporter's and must be booked somewhere
+			cc, cancel := context.WithCancel(context.Background())
+			cancel()
+			sendCtx = cc
+		}
 		for _, sz := range c.Sizes {
 			o.given += int64(sz)
-			_ = be.Send(context.Background(), &c19Req{sz})
+			_ = be.Send(sendCtx, &c19Req{sz})
 		}
 		if capacity > 0 {
 			o.capGauge = c19Counter(tt, "otelcol_exporter_queue_capacity")
@@ -344,7 +352,7 @@ func TestVerifC19(t *testing.T) {
 		return
 	}
 	outAlpha := []string{"ok", "transient", "permanent", "partial"}
-	configs := []string{"noqueue", "noqueue+retry", "queue10", "queue1+retry", "queue+batch", "queue+batch+retry", "persistent+retry"}
+	configs := []string{"noqueue", "noqueue+retry", "queue10", "queue1+retry", "queue1+cancelled-caller", "queue+batch", "queue+batch+retry", "persistent+retry"}
 	sizes := []int{1, 2, 5}
 	bound := ctx.Param("bound", 0)
 	maxReq := ctx.Param("requests", 2)
